@@ -18,6 +18,7 @@ Nothing of the analysed program is executed.  Anything the interpreter does not 
 ``Undecided`` -- never a silent pass.
 """
 import ast
+import copy
 from dataclasses import dataclass, field
 from typing import Any, Callable, Dict, List, Optional, Tuple
 
@@ -85,6 +86,25 @@ def iteration_layers(t):
         elif t[0] == "sub" and t[2] == REV_SLICE:
             layers.append("reversed")
             t = t[1]
+        elif t[0] == "call" and t[1] == ("glob", "ext:builtins.zip") and len(t[2]) == 2 and not t[3]:
+            # zip(range(len(x)), x) is enumerate(x);  zip(reversed(range(len(x))), reversed(x)) is reversed(list(enumerate(x)))
+            la, ba = iteration_layers(t[2][0])
+            lb, bb = iteration_layers(t[2][1])
+            if set(la) - {"reversed", "list", "tuple", "iter"} or set(lb) - {"reversed", "list", "tuple", "iter"}:
+                return layers, t
+            ba = strip_sites(ba)
+            is_range_len = ba[0] == "call" and ba[1] == ("glob", "ext:builtins.range") and len(ba[2]) == 1 and ba[2][0][0] == "call" and ba[2][0][1] == ("glob", "ext:builtins.len") and len(ba[2][0][2]) == 1
+            if not is_range_len:
+                return layers, t
+            x = ba[2][0][2][0]
+            xl, xb = iteration_layers(x)
+            if set(xl) - {"list", "tuple"} or strip_sites(bb) not in (x, xb) or la.count("reversed") % 2 != lb.count("reversed") % 2:
+                return layers, t
+            if la.count("reversed") % 2:
+                layers.append("reversed")
+            layers.append("list")
+            layers.append("enumerate")
+            t = xb
         else:
             return layers, t
 
@@ -226,6 +246,15 @@ class Outcome:
     value: Any = None
 
 
+class InFunction(ast.stmt):
+    """synthetic statement: execute `body` with `fi` as the current function (name resolution, self/cls)"""
+
+    _fields = ("body",)
+
+
+# thorough tier: every loop is explored for this many more iterations than the rule asks for
+UNROLL_BONUS = 0
+
 # (function qual, local name) -> line: reads of a local that no earlier statement on the interpreted path has bound
 UNBOUND_READS = {}
 
@@ -265,7 +294,7 @@ class Interp:
         self.attr_hook = attr_hook
         self.sub_hook = sub_hook  # sub_hook(interp, path, base, index, node) -> None | [(kind, value)]
         self.binop_hook = binop_hook  # binop_hook(interp, path, op, l, r, node) -> None | [(kind, value)]
-        self.unroll = unroll
+        self.unroll = unroll + UNROLL_BONUS
         self.assert_raises = assert_raises
         self.npaths = 0
         self.depth = 0
@@ -379,10 +408,28 @@ class Interp:
         if mod is not None:
             r = self.program.resolve(mod, name)
             if r is not None:
+                mc = self.program.module_constant(r)
+                if mc is not None:
+                    # a named module-level constant is its value (LEAF = True, _UNBOUNDED = math.inf, ...)
+                    return self._const_term(mc[0], mc[1])
                 return ("glob", r)
             if fi is not None and (self._whole or fi is not self.func) and name not in ("__class__", "__package__", "__name__", "__file__", "__doc__", "__spec__", "__builtins__", "__debug__"):
                 UNBOUND_READS.setdefault((fi.qual, name), getattr(self, "_cur_lineno", 0))
         return key
+
+    def _const_term(self, mod, v):
+        if isinstance(v, ast.Constant):
+            return ("const", v.value)
+        if isinstance(v, ast.UnaryOp):
+            inner = self._const_term(mod, v.operand)
+            if inner[0] == "const" and isinstance(inner[1], (int, float)):
+                return ("const", -inner[1] if isinstance(v.op, ast.USub) else inner[1])
+            return ("unop", "-" if isinstance(v.op, ast.USub) else "+", inner)
+        if isinstance(v, ast.Tuple):
+            return ("tuple", tuple(self._const_term(mod, e) for e in v.elts))
+        if isinstance(v, ast.Call):
+            return ("call", ("glob", "ext:builtins.float"), (("const", v.args[0].value),), (), 0)
+        return ("glob", self.program.resolve(mod, v))
 
     def fresh(self, path):
         path.counter += 1
@@ -436,6 +483,9 @@ class Interp:
                 return ("glob", q + "." + attr)
             if q in self.program.modules:
                 r = self.program._resolve_in_module(q, attr, 0)
+                mc = self.program.module_constant(r)
+                if mc is not None:
+                    return self._const_term(mc[0], mc[1])
                 return ("glob", r)
             return ("glob", q + "." + attr)
         if self.attr_hook is not None:
@@ -793,6 +843,21 @@ class Interp:
             args = tuple(vals[1 : 1 + len(node.args)])
             kwargs = tuple((kw.arg, v) for kw, v in zip(node.keywords, vals[1 + len(node.args) :]))
             out.extend(self.apply(f, args, kwargs, p, node, awaited))
+        return out
+
+    def _eval_call_args(self, node: ast.Call, path):
+        """[(kind, path, args, kwargs)]: the argument terms of a call, without applying it"""
+        nodes = []
+        for a in node.args:
+            nodes.append(a.value if isinstance(a, ast.Starred) else a)
+        nodes += [kw.value for kw in node.keywords]
+        states, raises = self.eval_seq(nodes, path)
+        out = [("raise", p, v, None) for _k, p, v in raises]
+        for p, vals in states:
+            args = tuple(("star", v) if isinstance(a, ast.Starred) else v for a, v in zip(node.args, vals[: len(node.args)]))
+            kwargs = tuple((kw.arg, v) for kw, v in zip(node.keywords, vals[len(node.args) :]))
+            args, kwargs = self.flatten_args(args, kwargs)
+            out.append(("value", p, args, kwargs))
         return out
 
     def resolve_callee(self, f, path) -> Optional[FuncInfo]:
@@ -1269,6 +1334,13 @@ class Interp:
         outcomes.extend(Outcome("normal", p) for p in frontier)
         return outcomes
 
+    def s_InFunction(self, st, path):
+        self._funcstack.append(st.fi)
+        try:
+            return self.exec_block(st.body, path)
+        finally:
+            self._funcstack.pop()
+
     def exec_stmt(self, st, path) -> List[Outcome]:
         m = getattr(self, "s_" + type(st).__name__, None)
         if m is None:
@@ -1561,30 +1633,157 @@ class Interp:
     def s_Continue(self, st, path):
         return [Outcome("continue", path)]
 
+    EXIT_STACKS = ("ext:contextlib.ExitStack", "ext:contextlib.AsyncExitStack")
+
+    def _own_contextmanager(self, expr, path):
+        """(FuncInfo, receiver term, call node) when `expr` calls a package function decorated with
+        @contextmanager whose body has exactly one `yield` statement and no return; else None"""
+        if not isinstance(expr, ast.Call):
+            return None
+        d = dotted(expr.func)
+        if d is None:
+            return None
+        cur = self._cur()
+        if d.startswith("self.") and d.count(".") == 1 and cur is not None:
+            f = ("attr", ("sym", "self"), d.split(".")[1])
+        else:
+            r = self.program.resolve(self.module if cur is None else cur.module, expr.func)
+            f = ("glob", r) if r else None
+        fi = self.resolve_callee(f, path) if f is not None else None
+        if fi is None or not any((n or "").split(".")[-1] in ("contextmanager", "asynccontextmanager") for n in fi.decorator_names()):
+            return None
+        from .util import walk_no_nested
+
+        ys = [n for n in walk_no_nested(fi.node) if isinstance(n, (ast.Yield, ast.YieldFrom))]
+        if len(ys) != 1 or not isinstance(ys[0], ast.Yield) or any(isinstance(n, ast.Return) for n in walk_no_nested(fi.node)):
+            return None
+        return fi, f
+
+    def _splice_cm(self, fi, yield_target, body):
+        """the context manager's body with its `yield` statement replaced by (binding the yielded value and) `body`"""
+        found = {"n": 0}
+
+        def rewrite(stmts):
+            out = []
+            for stx in stmts:
+                if isinstance(stx, ast.Expr) and isinstance(stx.value, ast.Yield):
+                    found["n"] += 1
+                    if yield_target is not None:
+                        val = stx.value.value if stx.value.value is not None else ast.Constant(value=None)
+                        out.append(ast.copy_location(ast.Assign(targets=[yield_target], value=val), stx))
+                    out.extend(body)
+                    continue
+                new = stx
+                for fld in ("body", "orelse", "finalbody"):
+                    seq = getattr(stx, fld, None)
+                    if isinstance(seq, list) and seq and isinstance(seq[0], ast.stmt):
+                        if new is stx:
+                            new = copy.copy(stx)
+                        setattr(new, fld, rewrite(seq))
+                if isinstance(stx, ast.Try) and stx.handlers:
+                    if new is stx:
+                        new = copy.copy(stx)
+                    hs = []
+                    for h in stx.handlers:
+                        h2 = copy.copy(h)
+                        h2.body = rewrite(h.body)
+                        hs.append(h2)
+                    new.handlers = hs
+                out.append(new)
+            return out
+
+        res = rewrite(fi.node.body)
+        return res if found["n"] == 1 else None
+
     def s_With(self, st, path):
-        outs = []
-        paths = [path]
-        for item in st.items:
-            new = []
-            for p in paths:
-                for k, p2, v in self.eval(item.context_expr, p):
+        if len(st.items) > 1:
+            # with a, b: body  ==  with a: with b: body
+            inner = copy.copy(st)
+            inner.items = st.items[1:]
+            outer = copy.copy(st)
+            outer.items = st.items[:1]
+            outer.body = [inner]
+            return self.s_With(outer, path)
+        item = st.items[0]
+        # --- a package function decorated with @contextmanager: its body is spliced around the with-body
+        cm = self._own_contextmanager(item.context_expr, path) if self.depth < self.MAX_INLINE else None
+        if cm is not None:
+            fi, f = cm
+            used = {n.id for b in st.body for n in ast.walk(b) if isinstance(n, ast.Name)}
+            clash = (self.locals_of(fi) - {"self", "cls"}) & used
+            caller_block = InFunction(body=list(st.body))
+            caller_block.fi = self._cur()
+            caller_block.lineno = st.lineno
+            target_stmt = None
+            if item.optional_vars is not None:
+                pass
+            spliced = self._splice_cm(fi, item.optional_vars, [caller_block]) if not clash else None
+            if spliced is not None:
+                outs = []
+                for k, p2, args, kwargs in self._eval_call_args(item.context_expr, path):
                     if k == "raise":
-                        outs.append(Outcome("raise", p2, v))
+                        outs.append(Outcome("raise", p2, args))
                         continue
-                    p2.ev("with-enter", v, st.lineno)
-                    if item.optional_vars is not None:
-                        for o in self.assign(item.optional_vars, ("enter", v), p2, st.lineno):
-                            if o.kind == "normal":
-                                new.append(o.path)
+                    recv = f[1] if f[0] == "attr" else None
+                    binding = self.bind_args(fi, recv, args, kwargs, p2)
+                    if binding is None:
+                        outs = None
+                        break
+                    saved = {}
+                    for name, v in binding.items():
+                        key = ("sym", name)
+                        if name in ("self", "cls") and v == key:
+                            continue
+                        saved[key] = p2.env.get(key)
+                        p2.env[key] = v
+                    p2.ev("with-enter", ("call", f, tuple(args), tuple(kwargs), 0), st.lineno)
+                    p2.ev("inline-enter", fi.qual, st.lineno)
+                    self.depth += 1
+                    self._funcstack.append(fi)
+                    try:
+                        res = self.exec_block(spliced, p2)
+                    finally:
+                        self._funcstack.pop()
+                        self.depth -= 1
+                    for o in res:
+                        for key, old in saved.items():
+                            if old is None:
+                                o.path.env.pop(key, None)
                             else:
-                                outs.append(o)
+                                o.path.env[key] = old
+                        o.path.ev("inline-exit", fi.qual, o.kind)
+                        o.path.ev("with-exit", st.lineno, o.kind)
+                        outs.append(o)
+                if outs is not None:
+                    return outs
+        outs = []
+        for k, p2, v in self.eval(item.context_expr, path):
+            if k == "raise":
+                outs.append(Outcome("raise", p2, v))
+                continue
+            p2.ev("with-enter", v, st.lineno)
+            entered = ("enter", v)
+            start = len(p2.events)
+            is_stack = v[0] == "call" and v[1][0] == "glob" and v[1][1] in self.EXIT_STACKS
+            paths = []
+            if item.optional_vars is not None:
+                for o in self.assign(item.optional_vars, entered, p2, st.lineno):
+                    if o.kind == "normal":
+                        paths.append(o.path)
                     else:
-                        new.append(p2)
-            paths = new
-        for p in paths:
-            for o in self.exec_block(st.body, p):
-                o.path.ev("with-exit", st.lineno, o.kind)
-                outs.append(o)
+                        outs.append(o)
+            else:
+                paths.append(p2)
+            for p in paths:
+                for o in self.exec_block(st.body, p):
+                    if is_stack:
+                        # ExitStack: the callbacks registered inside the block run now, last registered first
+                        cbs = [e[1] for e in o.path.events[start:] if e[0] == "call" and e[1][1] == ("attr", entered, "callback") and e[1][2]]
+                        for ct in reversed(cbs):
+                            for _k, _p, _v in self.apply(ct[2][0], tuple(ct[2][1:]), tuple(ct[3]), o.path, st):
+                                pass  # the call event is what matters; a raising callback is not modelled
+                    o.path.ev("with-exit", st.lineno, o.kind)
+                    outs.append(o)
         return outs
 
     s_AsyncWith = s_With
